@@ -177,6 +177,63 @@ example : (exTable.housekeep 100).claims =
     sweepOk exTable 100 (exTable.housekeep 100) = true := by
   decide
 
+/-! ### sweeps compose: a late, skipped or repeated sweep neither loses a live entry nor keeps an expired one -/
+
+/-- sweeping at `now` and then at a later `now'` leaves exactly what one sweep at `now'` leaves (for every table): the
+    one-second housekeeping rhythm is not load-bearing for WHICH entries are live after a sweep -/
+theorem housekeep_compose (t : Table) (now now' : Int) (h : now ≤ now') :
+    (t.housekeep now).housekeep now' = t.housekeep now' := by
+  simp only [housekeep, List.filter_filter, Generated.cacheLive, Generated.claimLive]
+  congr 1
+  · apply List.filter_congr
+    intro v _
+    by_cases h1 : now' ≤ v.timeout
+    · have : now ≤ v.timeout := by omega
+      simp [h1, this]
+    · simp [h1]
+  · apply List.filter_congr
+    intro e _
+    by_cases h1 : now' ≤ e.timeout
+    · have : now ≤ e.timeout := by omega
+      simp [h1, this]
+    · simp [h1]
+
+/-- a sweep is idempotent -/
+theorem housekeep_idem (t : Table) (now : Int) : (t.housekeep now).housekeep now = t.housekeep now :=
+  housekeep_compose t now now (Int.le_refl _)
+
+/-- a sweep keeps every claim and learned entry that has not expired, in table order (claims are a sublist: the order that
+    decides ties between equally long prefixes is untouched) -/
+theorem housekeep_keeps_live (t : Table) (now : Int) :
+    (∀ e ∈ t.claims, now ≤ e.timeout → e ∈ (t.housekeep now).claims) ∧
+    (∀ v ∈ t.cache, now ≤ v.timeout → v ∈ (t.housekeep now).cache) ∧
+    (t.housekeep now).claims.Sublist t.claims := by
+  refine ⟨?_, ?_, List.filter_sublist⟩
+  · intro e he hl
+    simp only [housekeep, Generated.claimLive, List.mem_filter, decide_eq_true_eq]
+    exact ⟨he, hl⟩
+  · intro v hv hl
+    simp only [housekeep, Generated.cacheLive, List.mem_filter, decide_eq_true_eq]
+    exact ⟨hv, hl⟩
+
+/-- a table in which nothing has expired is a fixed point of the sweep (a healthy mesh's table is not rewritten) -/
+theorem housekeep_fixed (t : Table) (now : Int) (hc : ∀ e ∈ t.claims, now ≤ e.timeout) (hv : ∀ v ∈ t.cache, now ≤ v.timeout) :
+    t.housekeep now = t := by
+  cases t with
+  | mk cache claims ct clt =>
+    simp only [housekeep, Generated.cacheLive, Generated.claimLive, Table.mk.injEq, and_true]
+    constructor
+    · apply List.filter_eq_self.2
+      intro v h; simpa using hv v h
+    · apply List.filter_eq_self.2
+      intro e h; simpa using hc e h
+
+/-- premises are satisfiable and the order of the two sweeps matters: sweeping at 100 after 3000 is not sweeping at 100 -/
+example : ((exTable.housekeep 100).housekeep 3000).claims = (exTable.housekeep 3000).claims ∧
+    ((exTable.housekeep 3000).housekeep 100).claims ≠ (exTable.housekeep 100).claims := by
+  decide
+
+
 /-! ### `lookup` only returns peers present in the table -/
 
 /-- a lookup can only return a peer that has a claim or a cached entry in the table -/
